@@ -154,8 +154,8 @@ theorem getStateId_rel {L : List Nat} {b : Builder} (h : Rel L b) (k : Nat) :
     simp only [hi, Option.map_some, addKey1, if_pos hk, Nat.add_zero, List.append_nil]
     exact ⟨h, trivial, trivial⟩
   · simp only [indexOf_none_of_not_mem hk, Option.map_none, addKey1, if_neg hk]
-    refine ⟨⟨by simp [h.size], ?_, ?_, by simp [h.len]⟩, ?_, rfl⟩
-    · simp [h.map, h.size, List.zipIdx_append]
+    refine ⟨⟨by simp [h.size], ?_, ?_, by simp [h.len]⟩, ?_, by simp⟩
+    · simp [h.size, List.zipIdx_append]
     · have := addKey1_nodup h.nodup k
       simpa [addKey1, hk] using this
     · rw [indexOf_append_new hk, h.size]
@@ -289,7 +289,7 @@ theorem modify_map {α} {L : List Nat} (hn : L.Nodup) {k i : Nat} (hi : indexOf 
     · rename_i hxk
       cases hi
       subst hxk
-      simp only [List.map_cons, List.modify_head, if_true, List.cons.injEq, true_and]
+      simp only [List.map_cons, List.modify_zero_cons, if_true, List.cons.injEq, true_and]
       apply List.map_congr_left
       intro y hy
       have : y ≠ x := fun e => hx (e ▸ hy)
@@ -359,7 +359,7 @@ theorem inv_new (k0 : Nat) : Inv k0 [] (Builder.new k0) := by
   have hk : keys k0 [] = [k0] := rfl
   have ha : addKey1 [] k0 = [k0] := by simp [addKey1]
   rw [ha] at h1 h2
-  refine ⟨by rw [hk]; exact h1, fun op hop => by cases hop, by rw [hk]; simp [indexOf], ?_⟩
+  refine ⟨(by rw [hk]; exact h1), fun op hop => (by cases hop), (by rw [hk]; simp [indexOf]), ?_⟩
   rw [hk]
   unfold Builder.new
   rw [h3]
